@@ -21,6 +21,10 @@ fn main() {
         rt.block_on(helpers::lib_compress(&args[2..]));
         return;
     }
+    if suite == "codec" {
+        helpers::codec(&args[2..]);
+        return;
+    }
     let thorough = args[2] == "thorough";
     let seed = h::seed_from_env();
     h::silence_panics();
